@@ -157,6 +157,26 @@ def static_struct_size(s):
     return best
 
 
+def compiler_fixed_size(s):
+    """What the compiler calls the fixed size of a structure: the largest end
+    of any physical field when every location is constant, *whatever the
+    fields' conditions* (attribute_checker._fixed_size_of_struct_or_bits).  A
+    field holding such a structure must have exactly this size, even though the
+    structure's run-time size may be smaller."""
+    best = 0
+    prev_end = None
+    for f in s.fields:
+        if f.kind == "virtual":
+            continue
+        a = prev_end if f.start == ("ref", ["$next"]) else const_value(f.start)
+        b = const_value(f.size)
+        if a is None or b is None:
+            return None
+        prev_end = a + b
+        best = max(best, a + b)
+    return best
+
+
 def apply_op(op, vals):
     """Strict operators over known values, documented short-circuit for && ||."""
     if op == "&&":
